@@ -48,9 +48,16 @@ fn dur(ns: i128) -> time::Duration {
 
 const FAR_NS: i128 = 1 << 61;
 
+/// Bound on the polling rounds of one drain (each round polls only futures whose waker fired).
+const MAX_DRAIN_ROUNDS: usize = 100_000;
+
 type AcqFut<'a> = Pin<Box<dyn Future<Output = ctx::OrCanceled<limiter::Permit<'a>>> + 'a>>;
 
 async fn run_case(c: &Value) -> Value {
+    if c["test_hang"].as_bool() == Some(true) {
+        // self-test of the watchdog only
+        std::future::pending::<()>().await;
+    }
     let clock = ctx::ManualClock::new();
     let t0 = clock.now();
     let root = ctx::test_root(&clock);
@@ -95,6 +102,7 @@ async fn run_case(c: &Value) -> Value {
     let mut grants: Vec<Value> = vec![];
     let mut events: Vec<Value> = vec![];
     let mut started = 0usize;
+    let mut livelock = false;
     let now_ns = |clock: &ctx::ManualClock| (clock.now() - t0).whole_nanoseconds();
 
     for o in ops {
@@ -132,9 +140,15 @@ async fn run_case(c: &Value) -> Value {
             }
             x => panic!("bad op {x}"),
         }
-        // drive to quiescence
+        // drive to quiescence (bounded: a future that keeps waking itself is reported, not awaited)
         let mut idle_rounds = 0;
+        let mut rounds = 0usize;
         while idle_rounds < 2 {
+            rounds += 1;
+            if rounds > MAX_DRAIN_ROUNDS {
+                livelock = true;
+                break;
+            }
             for _ in 0..4 {
                 tokio::task::yield_now().await;
             }
@@ -169,25 +183,28 @@ async fn run_case(c: &Value) -> Value {
                 idle_rounds += 1;
             }
         }
+        if livelock {
+            break;
+        }
     }
-    let out = json!({"grants": grants, "status": status, "events": events, "now": now_ns(&clock).to_string()});
+    let out = if livelock {
+        json!({"hang": true, "livelock": true, "rounds": MAX_DRAIN_ROUNDS})
+    } else {
+        json!({"grants": grants, "status": status, "events": events, "now": now_ns(&clock).to_string()})
+    };
     // futures first (they hold the acquire lock guard), then permits, then contexts / limiter.
     drop(futs);
     drop(permits);
     out
 }
 
+#[path = "../limiter_util.rs"]
+mod u;
+
+fn case(c: Value) -> u::CaseFut {
+    Box::pin(async move { run_case(&c).await })
+}
+
 fn main() {
-    quiet_panics();
-    let rt = tokio::runtime::Builder::new_current_thread()
-        .enable_all()
-        .build()
-        .unwrap();
-    for c in read_cases() {
-        let r = catch(std::panic::AssertUnwindSafe(|| rt.block_on(run_case(&c))));
-        match r {
-            Ok(v) => write_line(&v),
-            Err(m) => write_line(&json!({ "panic": m })),
-        }
-    }
+    u::main_loop(case)
 }
